@@ -22,12 +22,15 @@ class Intersect:
     nfree = 0
     max_degree = 2
 
-    def __init__(self, A, B, lim=3, direction=(3, 1), premove=False, dof=1):
+    def __init__(self, A, B, lim=3, direction=(3, 1), premove=False, dof=1, scale=1):
         """premove: the second curve is first built far away, intersected once, and then moved in place to its
         position (an intersection must not depend on what the curve was asked before)"""
         self.A, self.B, self.lim, self.premove = A, B, lim, premove
         self.dir = (F(direction[0]), F(direction[1]))
         self.dof = dof
+        self.scale = F(scale)  # the whole drawing (both curves and the translation) in another unit of length
+        if self.scale < 1:  # scaled coordinates must stay representable (Point2D caps denominators at 1e9)
+            self.max_witness_den = max(1, int(10**8 * self.scale))
         self.names = ["t"] if dof == 1 else ["tx", "ty"]
 
     def domain(self, xs):
@@ -40,13 +43,14 @@ class Intersect:
 
     def run(self, xs):
         tx, ty = self.shift(xs)
-        va, vb = pts(self.A), pts(self.B, tx, ty)
+        sc = self.scale
+        va, vb = [(sc * x, sc * y) for x, y in pts(self.A)], [(sc * x, sc * y) for x, y in pts(self.B, tx, ty)]
         if self.premove:
             ja = JordanCurve.from_vertices(va)
-            jb = JordanCurve.from_vertices(pts(self.B, tx + 50, ty + 70))
+            jb = JordanCurve.from_vertices([(sc * x, sc * y) for x, y in pts(self.B, tx + 50, ty + 70)])
             ja.intersection(jb)
             jb.intersection(ja)
-            jb.move((-50, -70))
+            jb.move((-50 * sc, -70 * sc))
             ja.move((0, 0))
         else:
             ja, jb = JordanCurve.from_vertices(va), JordanCurve.from_vertices(vb)
@@ -300,6 +304,7 @@ def specs(tier):
     pairs = PAIRS_QUICK if tier == "quick" else PAIRS_THOROUGH
     out = [dict(module="checks.c14", scenario="Intersect", params=dict(A=a, B=b)) for a, b in pairs]
     out += [dict(module="checks.c14", scenario="Intersect", params=dict(A=a, B=b, premove=True)) for a, b in pairs[:2 if tier == "quick" else len(pairs)]]
+    out += [dict(module="checks.c14", scenario="Intersect", params=dict(A=a, B=b, scale=sc)) for a, b in pairs[1:3 if tier == "quick" else len(pairs)] for sc in (["1/2000"] if tier == "quick" else ["1/2000", "1/100", "5000"])]
     for a, b in [("qa", "qb"), ("ca", "la")] + ([("qa", "ca"), ("ca", "qb")] if tier != "quick" else []):
         out.append(dict(module="checks.c14", scenario="FilterStage", params=dict(A=a, B=b), time_budget=60 if tier == "quick" else 900))
     if tier != "quick":
